@@ -86,6 +86,11 @@ func (t *trans) callbackOf(c *ast.CallExpr) (string, bool) {
 		if _, isCb := t.callbacks[key]; isCb {
 			return key, true
 		}
+		if ix, ok := sel.X.(*ast.IndexExpr); ok {
+			if ety, ok := t.listFields[exprText(t.p.fset, ix.X)]; ok && strings.HasPrefix(string(ety), "cb:") {
+				return "[]" + exprText(t.p.fset, ix.X), true
+			}
+		}
 	}
 	return "", false
 }
@@ -120,6 +125,18 @@ func (t *trans) fresh(base string) string {
 
 // bindCall emits the call c with its results bound to names (types are returned), followed by cont()
 func (t *trans) bindCall(c *ast.CallExpr, names []string, cont func(tys []gty) string) string {
+	if key, isCb := t.callbackOf(c); isCb && strings.HasPrefix(key, "[]") {
+		// g.gens[i].value(t): pick the generator, then draw from it
+		field := key[2:]
+		ety := gty(string(t.listFields[field])[3:])
+		ix := c.Fun.(*ast.SelectorExpr).X.(*ast.IndexExpr)
+		idx, ity := t.expr(ix.Index, "i64")
+		if ity != "i64" || len(names) != 1 {
+			panic("translate: unsupported use of a slice of generators")
+		}
+		gen := t.fresh("gen")
+		return fmt.Sprintf("Go.idxP %s %s fun %s =>\n  %s fun %s =>\n  %s", cbName(field), idx, gen, gen, names[0], cont([]gty{ety}))
+	}
 	if key, isCb := t.callbackOf(c); isCb {
 		res := t.callbacks[key]
 		if len(names) != len(res) {
@@ -214,6 +231,32 @@ func (t *trans) hoist(es []ast.Expr, cont func() string) string {
 	for _, e := range es {
 		calls = append(calls, t.streamCalls(e)...)
 	}
+	// g.slice[i]: an index expression that can panic is bound like a call
+	var idxs []*ast.IndexExpr
+	for _, e := range es {
+		ast.Inspect(e, func(n ast.Node) bool {
+			if ix, ok := n.(*ast.IndexExpr); ok {
+				if ety, ok := t.listFields[exprText(t.p.fset, ix.X)]; ok && !strings.HasPrefix(string(ety), "cb:") {
+					if _, done := t.hoistedIdx[ix]; !done {
+						idxs = append(idxs, ix)
+					}
+				}
+			}
+			return true
+		})
+	}
+	if len(idxs) > 0 {
+		ix := idxs[0]
+		field := exprText(t.p.fset, ix.X)
+		idx, ity := t.expr(ix.Index, "i64")
+		if ity != "i64" {
+			panic("translate: slice index is not an int")
+		}
+		name := t.fresh("x")
+		t.env[name] = t.listFields[field]
+		t.hoistedIdx[ix] = name
+		return fmt.Sprintf("Go.idxP %s %s fun %s =>\n  %s", cbName(field), idx, name, t.hoist(es, cont))
+	}
 	var rec func(i int) string
 	rec = func(i int) string {
 		if i == len(calls) {
@@ -226,6 +269,9 @@ func (t *trans) hoist(es []ast.Expr, cont func() string) string {
 		}
 		if key, ok := t.callbackOf(c); ok {
 			n = len(t.callbacks[key])
+			if strings.HasPrefix(key, "[]") {
+				n = 1
+			}
 		}
 		if n != 1 {
 			panic("translate: multi-value stream call inside an expression: " + exprText(t.p.fset, c))
@@ -797,6 +843,8 @@ func (t *trans) progFunction(key string, fx bool) string {
 	t.streamOwner = ""
 	t.recvName, t.recvType = "", ""
 	t.callbacks = map[string][]gty{}
+	t.listFields = map[string]gty{}
+	t.hoistedIdx = map[*ast.IndexExpr]string{}
 	typeParams = map[string]bool{}
 	defer func() { typeParams = map[string]bool{} }()
 	var params []string
@@ -884,6 +932,21 @@ func (t *trans) progFunction(key string, fx bool) string {
 						params = append(params, fmt.Sprintf("(%s : (%s → Prog) → Prog)", cbName(fkey), leanTy(ety)))
 						continue
 					}
+				}
+				if at, ok := f.Type.(*ast.ArrayType); ok && at.Len == nil {
+					// a slice: of values, or of generators
+					if se, ok := at.Elt.(*ast.StarExpr); ok {
+						if ix, ok := se.X.(*ast.IndexExpr); ok && exprText(t.p.fset, ix.X) == "Generator" {
+							ety := goTy(ix.Index)
+							t.listFields[fkey] = gty("cb:" + string(ety))
+							params = append(params, fmt.Sprintf("(%s : List ((%s → Prog) → Prog))", cbName(fkey), leanTy(ety)))
+							continue
+						}
+					}
+					ety := goTy(at.Elt)
+					t.listFields[fkey] = ety
+					params = append(params, fmt.Sprintf("(%s : List %s)", cbName(fkey), leanTy(ety)))
+					continue
 				}
 				if ft, ok := f.Type.(*ast.FuncType); ok && ft.Results != nil && len(ft.Results.List) == 1 {
 					var fs sig
